@@ -1,3 +1,4 @@
 import Dnp3.Props.C06
 import Dnp3.Props.C07
 import Dnp3.Props.C08
+import Dnp3.Props.C10
